@@ -153,6 +153,21 @@ fn check_shift(ctx: &mut Ctx, c: &Case, out: &Outcome, req: &str, prop: &str) {
     }
 }
 
+/// Varies how the items hash (never what they equal): the default mix, a lawful but colliding hash (parity of the
+/// label), one bucket for everything, and the hash of a short string. Chosen from the content of the case.
+fn vary_hash(mut c: Case) -> Case {
+    let h = c.old.iter().chain(c.new.iter()).fold(c.old.len() as u32 * 31 + c.new.len() as u32, |a, &x| a.wrapping_mul(37).wrapping_add(x));
+    c.salt = match h % 5 {
+        0 => 0,
+        1 => obs::WEAK_HASH,
+        2 if c.old.len() + c.new.len() <= 80 => obs::CONST_HASH,
+        2 => obs::WEAK_HASH,
+        3 => obs::STR_HASH,
+        _ => 0x5a17 + h,
+    };
+    c
+}
+
 fn for_small_cases(ctx: &mut Ctx, k_full: u32, l_full: usize, k_sub: u32, l_sub: usize, mut f: impl FnMut(&mut Ctx, Case)) {
     // binary sequences, two items longer (repeats next to edits; totals up to 2*(l_full+2))
     let bin = gen::all_seqs(2, l_full + 2);
@@ -165,7 +180,7 @@ fn for_small_cases(ctx: &mut Ctx, k_full: u32, l_full: usize, k_sub: u32, l_sub:
                 if !ctx.take() {
                     continue;
                 }
-                f(ctx, Case::full(alg, old, new));
+                f(ctx, vary_hash(Case::full(alg, old, new)));
             }
         }
     }
@@ -177,7 +192,7 @@ fn for_small_cases(ctx: &mut Ctx, k_full: u32, l_full: usize, k_sub: u32, l_sub:
                 if !ctx.take() {
                     continue;
                 }
-                f(ctx, Case::full(alg, old, new));
+                f(ctx, vary_hash(Case::full(alg, old, new)));
             }
         }
     }
@@ -215,7 +230,7 @@ fn for_small_cases(ctx: &mut Ctx, k_full: u32, l_full: usize, k_sub: u32, l_sub:
                             c.ns += no;
                             c.ne += no;
                         }
-                        f(ctx, c);
+                        f(ctx, vary_hash(c));
                     }
                 }
             }
@@ -248,7 +263,7 @@ fn random_cases(ctx: &mut Ctx, count: usize, max_size: usize, tag: u64, mut f: i
         }
         ctx.count(&format!("random.family.{:?}", fam));
         ctx.max("random.max_len", (old.len() + new.len()) as u64);
-        f(ctx, c, &mut rng);
+        f(ctx, vary_hash(c), &mut rng);
     }
 }
 
